@@ -212,7 +212,15 @@ class Harnessed(object):
                     setter(dec(v))
         self.hook('fn:post', name)
 
-    def parse(self, text):
+    def parse(self, text, again=False):
+        """again: the same text was evaluated on this parser a moment ago (its record, events and calls discarded) -
+        what is observed is the second evaluation, which must not differ from a first one"""
+        if again:
+            self.frames.append([[], []])
+            try:
+                self.p.parse(text)
+            finally:
+                self.frames.pop()
         del self.frames[0][0][:], self.frames[0][1][:]
         self.frames.append([[], []])
         try:
